@@ -893,8 +893,11 @@ class Session:
         self.log_state()
 
     def content_path(self, algo, blob_id):
-        return os.path.join(self.root, R.content_relpath(
-            algo, R.digest_hex(algo, self.u.blobs[blob_id].bytes())))
+        if algo == "xxh3":
+            hx = self.u.xxh3_hex(blob_id)
+        else:
+            hx = R.digest_hex(algo, self.u.blobs[blob_id].bytes())
+        return os.path.join(self.root, R.content_relpath(algo, hx))
 
     def env_set_content(self, algo, blob_id, data=None, link_to=None, path=None):
         """Replace (or remove, data=None and link_to=None) the content file of an address."""
